@@ -304,3 +304,61 @@ Print Assumptions align_left_change_preserves_density.
 Print Assumptions euler_extract_reproduces_gen.
 Print Assumptions euler_extract_reproduces.
 Print Assumptions euler_extract_matrix.
+
+
+(* ---------- C02, massless final particles (restricted helicities): a pure z rotation is a phase ---------- *)
+(* d^j(0) = 1: 285 evaluations of the rational part at c = 1, s = 0 *)
+Definition d0_stmt (t : Z * Z * Z) : Prop :=
+  dtilde (fst (fst t)) (snd (fst t)) (snd t) 1 0 * IZR (a_of (fst (fst t)) (snd (fst t))) = delta (snd (fst t)) (snd t).
+Lemma d0_all : Forall d0_stmt all_jmk.
+Proof.
+  let l := eval vm_compute in all_jmk in change (Forall d0_stmt l).
+  repeat (apply Forall_cons; [unfold d0_stmt; rcompute; field | ]).
+  apply Forall_nil.
+Qed.
+
+Lemma dsmall_zero j2 m2 k2 :
+  (0 <= j2 <= 8)%Z -> In m2 (m_range j2) -> In k2 (m_range j2) -> dsmall j2 m2 k2 0 = delta m2 k2.
+Proof.
+  intros Hj Hm Hk. unfold dsmall. replace (0 / 2) with 0 by field. rewrite cos_0, sin_0.
+  pose proof d0_all as U. rewrite Forall_forall in U.
+  pose proof (U (j2, m2, k2) (in_all_jmk j2 m2 k2 Hj Hm Hk)) as G. unfold d0_stmt in G. cbn [fst snd] in G.
+  assert (Hg : dtilde j2 m2 k2 1 0 = delta m2 k2 / IZR (a_of j2 m2)).
+  { apply (Rmult_eq_reg_r (IZR (a_of j2 m2))); [|apply Rgt_not_eq, a_of_Rpos].
+    rewrite G. field. apply Rgt_not_eq, a_of_Rpos. }
+  unfold dsmall_cs. rewrite Hg, mult_IZR. apply delta_sqrt.
+Qed.
+
+Theorem z_rotation_alignment_is_phase j2 alpha gamma (X : Z -> C) f :
+  (0 <= j2 <= 8)%Z -> In f (m_range j2) ->
+  D_apply_right j2 alpha 0 gamma X f
+  = Cmul (cos (IZR f / 2 * (alpha + gamma)), sin (IZR f / 2 * (alpha + gamma))) (X f).
+Proof.
+  intros Hj Hf. unfold D_apply_right.
+  rewrite (czsum_ext (m_range j2) _
+            (fun l => Cscal (delta f l) (Cmul (cos (IZR l / 2 * alpha + IZR f / 2 * gamma), sin (IZR l / 2 * alpha + IZR f / 2 * gamma)) (X l)))).
+  2:{ intros l Hl. unfold Dconj. rewrite (dsmall_zero j2 l f Hj Hl Hf).
+      replace (delta l f) with (delta f l) by (unfold delta; rewrite Z.eqb_sym; reflexivity).
+      destruct (X l) as [x y]. unfold Cmul, Cscal; simpl. f_equal; ring. }
+  apply injective_projections.
+  - rewrite czsum_fst.
+    rewrite (zsum_ext (m_range j2) _ (fun l => delta f l * fst (Cmul (cos (IZR l / 2 * alpha + IZR f / 2 * gamma), sin (IZR l / 2 * alpha + IZR f / 2 * gamma)) (X l)))).
+    2:{ intros l _. unfold Cscal. reflexivity. }
+    rewrite (zsum_delta (m_range j2) _ f (m_range_nodup j2) Hf).
+    replace (IZR f / 2 * alpha + IZR f / 2 * gamma) with (IZR f / 2 * (alpha + gamma)) by ring. reflexivity.
+  - rewrite czsum_snd.
+    rewrite (zsum_ext (m_range j2) _ (fun l => delta f l * snd (Cmul (cos (IZR l / 2 * alpha + IZR f / 2 * gamma), sin (IZR l / 2 * alpha + IZR f / 2 * gamma)) (X l)))).
+    2:{ intros l _. unfold Cscal. reflexivity. }
+    rewrite (zsum_delta (m_range j2) _ f (m_range_nodup j2) Hf).
+    replace (IZR f / 2 * alpha + IZR f / 2 * gamma) with (IZR f / 2 * (alpha + gamma)) by ring. reflexivity.
+Qed.
+
+(* hence any sub-list S of helicities (the `spins` of a massless particle) keeps its summed squared modulus *)
+Theorem z_rotation_alignment_restricted j2 alpha gamma (X : Z -> C) (S : list Z) :
+  (0 <= j2 <= 8)%Z -> (forall f, In f S -> In f (m_range j2)) ->
+  zsum S (fun f => Cnorm2 (D_apply_right j2 alpha 0 gamma X f)) = zsum S (fun f => Cnorm2 (X f)).
+Proof.
+  intros Hj HS. apply zsum_ext. intros f Hf.
+  rewrite (z_rotation_alignment_is_phase j2 alpha gamma X f Hj (HS f Hf)). apply Cnorm2_phase.
+Qed.
+Print Assumptions z_rotation_alignment_restricted.
